@@ -61,11 +61,16 @@ Definition c15_spec_destroy (nch : nat) (released : list nat) : bool :=
   Nat.eqb (length released) nch && forallb (fun c => existsb (Nat.eqb c) released) (seq 0 nch).
 
 (* ---- system-allocator wrappers: the request is refused iff it exceeds max_size (or the system refuses) *)
-Definition c15_spec_malloc_must_refuse (sT n : N) : bool := c15_size_max <? n * sT.
+(* No allocator on this platform can provide 2^47 bytes or more: the user address space of x86-64 Linux is 47 bits wide.  A block
+   "returned" for such a request cannot be large enough, whatever arithmetic led to it (wrap-around of n*sizeof T, of a rounded-up
+   size, of a page count ...): the property demands an allocation error. *)
+Definition c15_unservable_bytes : N := 2 ^ 47.
+Definition c15_spec_unservable (sT n : N) : bool := c15_unservable_bytes <=? n * sT.
+Definition c15_spec_malloc_must_refuse (sT n : N) : bool := (c15_size_max <? n * sT) || c15_spec_unservable sT n.
 
 (* ---- debugging allocator: block [ptr, ptr+cap) with cap = n*sT ends exactly at the inaccessible page,
         so ptr mod page is determined; ptr is aligned for T; requests that do not fit the address space are refused *)
-Definition c15_spec_dbg_servable (page sT n : N) : bool := n * sT + 2 * page <=? c15_size_max.
+Definition c15_spec_dbg_servable (page sT n : N) : bool := (n * sT + 2 * page <=? c15_size_max) && negb (c15_spec_unservable sT n).
 Definition c15_spec_dbg_off (page sT n : N) : N := (page - (n * sT) mod page) mod page.
 
 Fixpoint c15_spec_dbg_trace (page sT aT : N) (nlive : nat) (ops : list c15_op) (obs : list c15_dbg_obs) : bool :=
